@@ -868,6 +868,9 @@ class FactoryOracle:
         L.by_item[id(x)] = u
         L.held += 1
         if L.type == "combiner":
+            # what the pallet already carries when it arrives (a pallet packed by an upstream combiner) is not this
+            # combiner's doing: the recipe speaks of what *this* node adds
+            u.content = [id(i) for i in getattr(x, "items", [])]
             recipe = L.node._spec["recipe"]
             L.need = sum(recipe[1:len(L.node.in_edges)])
             L.n_ingredients = 0
@@ -983,7 +986,10 @@ class FactoryOracle:
             mon.violation("C16", "pallet_not_from_first_edge", "combiner:pallet-not-taken-from-in-edge-0", {"node": L.id, "edge": u.edge_in})
         got = Counter()
         ins = L.node.in_edges
+        preloaded = set(u.content or ())
         for it in pallet.items:
+            if id(it) in preloaded:
+                continue
             si = self.items.get(id(it))
             if si is None or si.state != "PACKED" or si.where != sp.iid:
                 mon.violation("C16", "content_not_packed_here", "combiner:pallet-carries-an-object-the-ledger-does-not-place-in-it",
